@@ -12,7 +12,7 @@ RULE = ('kind=compress: (L, d, state style {product, flat, stair (Schmidt weight
         'states are superpositions of K<=8 computational basis states of equal total charge (bond dimension K, Schmidt '
         'weights = grouped |c_k|^2); kind=from_vector: (n, d, vector style, tol); zero states are skipped (trivial); '
         'distinct = distinct descriptor')
-BOUNDS = {'quick': 'L<=5, d<=3, D<=8', 'thorough': 'L<=6, d<=3 (d=2 for L=6), D<=8, 4 repetitions'}
+BOUNDS = {'quick': 'L<=5, d<=3, D<=8', 'thorough': 'L<=6, d<=3, D<=8, 8 repetitions'}
 EXHAUSTIVE = {'quick': False, 'thorough': False}
 
 STYLES = ('product', 'flat', 'stair', 'stair_above', 'chain', 'chain_above', 'decay', 'random', 'random_max')
@@ -28,11 +28,9 @@ def tol_value(L, t):
 def cases(tier, seed):
     rng = np.random.default_rng(seed)
     Ls = range(1, 6) if tier == 'quick' else range(1, 7)
-    reps = 1 if tier == 'quick' else 4
+    reps = 1 if tier == 'quick' else 8
     for L in Ls:
         for d in (2, 3):
-            if L == 6 and d == 3:
-                continue
             for style in STYLES:
                 for qst in QST:
                     if tier == 'quick' and qst in ('repeated', 'large') and style not in ('random', 'stair'):
@@ -173,12 +171,16 @@ def run_case(c):
     try:
         ret = psi.compress(tol, mode=mode)
     except Exception as e:
+        if type(e).__name__ == 'CaseTimeout':      # the runner's wall-clock alarm must reach the runner
+            raise
         fail('returns', f'compress({tol}, {mode}) raised {type(e).__name__}: {e}')
         return dict(failures=fails, nontrivial=True, key=key)
     try:
         nrm, scale = ret
         nrm = complex(nrm); scale = complex(scale)
-    except Exception:
+    except Exception as e:
+        if type(e).__name__ == 'CaseTimeout':      # the runner's wall-clock alarm must reach the runner
+            raise
         fail('return_type', f'compress returned {ret!r}, expected (norm, scale)')
         return dict(failures=fails, nontrivial=True, key=key)
     if nrm.imag != 0 or scale.imag != 0:
@@ -315,6 +317,8 @@ def run_from_vector(c, rng, fail, fails, key):
     try:
         psi = ptn.MPS.from_vector(d, n, v, tol=tol)
     except Exception as e:
+        if type(e).__name__ == 'CaseTimeout':      # the runner's wall-clock alarm must reach the runner
+            raise
         fail('returns', f'from_vector({d}, {n}, v, {tol}) raised {type(e).__name__}: {e}')
         return dict(failures=fails, nontrivial=True, key=key)
     if oracle.snapshot(v) != snap:
